@@ -187,7 +187,7 @@ FUNCTIONS = list(_s.FUNCTIONS) + [
         ensures (vs_exc == 0 && RET) ==> ATTR_DONE(cursor)"""},
     {'q': 'Pistache::Http::Cookie::Cookie'},
     {'q': 'Pistache::Http::Cookie::fromRaw', 'hoist_all': True,
-     'ghost': [('Pistache_skip_whitespaces', 'before', 'g_flag_last = 0;'), ('match_attribute_bool', 'after', 'if ($RET) g_flag_last = 1;')],
+     'ghost': [('Pistache_skip_whitespaces', 'before', 'g_flag_last = 0;', 'optional'), ('match_attribute_bool', 'after', 'if ($RET) g_flag_last = 1;')],
      'dead_ok': ['throw std::runtime_error("Invalid cookie, missing value");'], 'contract': """
         requires len <= MAXLEN && FRESH(str, len) && vs_exc == 0 && PTR_EQ(g_in, str) && g_in_len == len
         assigns vs_exc, g_hit_end, g_j, g_app_src, g_flag_last, g_ext_calls, g_v, g_big, g_nondigit
@@ -229,10 +229,10 @@ PROOFS = [
     {'name': 'AttributeMatcher_string', 'enforce': 'AttributeMatcher_string_match', 'replace': ['Pistache_Http_matchValue'], 'props': ['C17', 'C03']},
     {'name': 'AttributeMatcher_int', 'enforce': 'AttributeMatcher_int_match', 'replace': ['Pistache_Http_matchValue', 'AttributeMatcher_int_match__strntol'], 'props': ['C17', 'C03']},
     {'name': 'AttributeMatcher_date', 'enforce': 'AttributeMatcher_date_match', 'replace': ['Pistache_Http_matchValue'], 'props': ['C17', 'C03']},
-    {'name': 'match_attribute_string', 'enforce': 'match_attribute_string', 'replace': [MS, ADV, 'AttributeMatcher_string_match'], 'props': ['C17', 'C03']},
-    {'name': 'match_attribute_int', 'enforce': 'match_attribute_int', 'replace': [MS, ADV, 'AttributeMatcher_int_match'], 'props': ['C17', 'C03']},
-    {'name': 'match_attribute_bool', 'enforce': 'match_attribute_bool', 'replace': [MS, ADV], 'props': ['C17', 'C03']},
-    {'name': 'match_attribute_date', 'enforce': 'match_attribute_date', 'replace': [MS, ADV, 'AttributeMatcher_date_match'], 'props': ['C17', 'C03']},
+    {'name': 'match_attribute_string', 'enforce': 'match_attribute_string', 'replace': [SKW, MS, ADV, 'AttributeMatcher_string_match'], 'props': ['C17', 'C03']},
+    {'name': 'match_attribute_int', 'enforce': 'match_attribute_int', 'replace': [SKW, MS, ADV, 'AttributeMatcher_int_match'], 'props': ['C17', 'C03']},
+    {'name': 'match_attribute_bool', 'enforce': 'match_attribute_bool', 'replace': [SKW, MS, ADV], 'props': ['C17', 'C03']},
+    {'name': 'match_attribute_date', 'enforce': 'match_attribute_date', 'replace': [SKW, MS, ADV, 'AttributeMatcher_date_match'], 'props': ['C17', 'C03']},
     {'name': 'Cookie_fromRaw', 'enforce': 'Pistache_Http_Cookie_fromRaw', 'loops': 'contracts', 'props': ['C17', 'C03'], 'cost': 30, 'defs': ['-DVS_LIGHT'], 'object_bits': 11,
      'replace': MAS + [ADV, MUC, SKW, 'Pistache_Http_matchValue'],
      'harness': 'void h_Cookie_fromRaw(void) { char *a0; size_t a1; Pistache_Http_Cookie_fromRaw(a0, a1); }\n'},
